@@ -803,6 +803,7 @@ func (c *Ctx) doBuiltin(st *State, fr *Frame, ins ssa.Instruction, b *ssa.Builti
 		if c.neverClosed(st, ch) {
 			c.emit(st, fr, ins, "access", "close never-closed", False, "close of a channel that is declared never closed", false)
 		}
+		c.closeUnderLock(st, fr, ins, ch)
 		cl := c.Arr(st, famChClosed, ArraySort(SInt, SBool))
 		c.Oblige(st, fr, ins, "nopanic", "nil-chan", Not(Eq(ch, IntLit(0))), "close of nil channel")
 		c.Oblige(st, fr, ins, "nopanic", "closed", Not(Select(cl, ch)), "close of closed channel")
@@ -1553,4 +1554,35 @@ func mentionsFn(n *SNode, name string) bool {
 		}
 	}
 	return false
+}
+
+// closeUnderLock: a lock invariant that speaks about closed(<field>) is only sound when that channel is
+// closed with the lock held (the invariant is assumed at Lock by code that goes on to send on the channel).
+func (c *Ctx) closeUnderLock(st *State, fr *Frame, ins ssa.Instruction, ch Term) {
+	o, ok := st.owners[ch.S]
+	if !ok {
+		if a := st.aliases[ch.S]; a != "" {
+			o, ok = st.owners[a]
+		}
+	}
+	if !ok {
+		return
+	}
+	li := c.LockInvs[c.Reg.TypeKey(o.Struct)]
+	if li == nil {
+		return
+	}
+	mentioned := false
+	for _, cl := range li.Clauses {
+		if strings.Contains(cl.Text, "closed("+o.Field+")") {
+			mentioned = true
+		}
+	}
+	if !mentioned || c.isFreshObject(st, o.Obj) {
+		return
+	}
+	lockT := c.lockOf(st, o.Struct, o.Obj, li.Lock)
+	h := c.Arr(st, famHeld, ArraySort(SInt, SBool))
+	c.Oblige(st, fr, ins, "access", "close "+o.Field, Select(h, lockT),
+		fmt.Sprintf("close of %s.%s requires %s to be held: the lock invariant speaks about the channel being closed", typeName(o.Struct), o.Field, li.Lock))
 }
